@@ -44,12 +44,12 @@ class Real:
             if react == 'slow':
                 await self.go2[tid]
                 raise
-            if react == 'spawn':
+            if react in ('spawn', 'spawnd'):
                 self.nspawn += 1
                 new = 1000 + self.nspawn
                 try:
-                    self.mk_member(new, 'reraise', False)
-                    self.new_spawns.append(new)
+                    self.mk_member(new, 'reraise', react == 'spawnd')
+                    self.new_spawns.append((new, react == 'spawnd'))
                 except RuntimeError:
                     self.spawn_errors += 1
                 raise
@@ -150,6 +150,7 @@ class Real:
                 'completed': self.ids.get(g.completed) if g.completed is not None else None,
                 'finished': sorted(i for t, i in self.ids.items() if i != 0 and t.done()),
                 'queue': q, 'jdone': bool(self.J is not None and self.J.done()),
+                'jcancelled': bool(self.J is not None and self.J.done() and self.J.cancelled()),
                 'cancelreq': sorted(i for t, i in self.ids.items() if i != 0 and not t.done() and t.cancelling() > 0)}
 
 
@@ -216,9 +217,9 @@ def run_case(case):
                 if h is None:
                     continue
                 c = R.classify(h)
-                for new in R.new_spawns:
+                for new, dm in R.new_spawns:
                     reacts[new] = 'reraise'
-                    trace.append([['spawn', new, False], None])
+                    trace.append([['spawn', new, dm], None])
                 if c[0] == 'step' and c[1] == 0:
                     label = ['run', ['J'], order, R.entered]
                 elif c[0] == 'ondone':
@@ -302,7 +303,7 @@ def snap_term(s):
     return (f"{{| s_pending := {nl(s['pending'])}; s_daemons := {nl(s['daemons'])}; s_doneq := {nl(s['doneq'])}; "
             f"s_semv := {c_nat(s['semv'])}; s_joined := {c_bool(s['joined'])}; s_completed := {comp}; "
             f"s_finished := {nl(s['finished'])}; s_queue := {c_list([handle_term(h) for h in s['queue']], 'handle')}; "
-            f"s_jdone := {c_bool(s['jdone'])}; s_cancelreq := {nl(s['cancelreq'])} |}}")
+            f"s_jdone := {c_bool(s['jdone'])}; s_cancelreq := {nl(s['cancelreq'])}; s_jcancelled := {c_bool(s['jcancelled'])} |}}")
 
 
 def coq_case(case, obs):
@@ -321,7 +322,7 @@ def gen_case(rng, opts=None):
     opts = opts or {}
     n = rng.randint(1, 4)
     nd = rng.randint(0, 2)
-    reacts = opts.get('reacts', ['reraise', 'reraise', 'reraise', 'slow', 'swallow', 'spawn'])
+    reacts = opts.get('reacts', ['reraise', 'reraise', 'reraise', 'slow', 'swallow', 'spawn', 'spawnd'])
     members = [{'react': rng.choice(reacts), 'daemon': i >= n} for i in range(n + nd)]
     actions = []
     ncancel = rng.choice([0, 0, 1, 2])
@@ -330,7 +331,7 @@ def gen_case(rng, opts=None):
         if r < 0.12:
             actions.append(['start'])
         elif r < 0.32:
-            actions.append(['finish', rng.randrange(8), rng.choice([['ret', None], ['ret', 1], ['exc']])])
+            actions.append(['finish', rng.randrange(8), rng.choice([['ret', None], ['ret', 1], ['exc'], ['ret', rng.choice([0, '', False, 2])]])])
         elif r < 0.38:
             actions.append(['finish2', rng.randrange(8)])
         elif r < 0.86:
